@@ -40,13 +40,22 @@ func (r *Request) Broker(cluster protocol.Cluster) (protocol.Broker, error) {
 	partition := r.Topics[0].Partitions[0].Partition
 	topic := r.Topics[0].Topic
 
-	for _, p := range cluster.Topics[topic].Partitions {
+	t, ok := cluster.Topics[topic]
+	if !ok {
+		return protocol.Broker{ID: -1}, protocol.NewErrNoTopic(topic)
+	}
+
+	for _, p := range t.Partitions {
 		if p.ID == partition {
-			return cluster.Brokers[p.Leader], nil
+			b, ok := cluster.Brokers[p.Leader]
+			if !ok {
+				return protocol.Broker{ID: -1}, protocol.NewErrNoLeader(topic, partition)
+			}
+			return b, nil
 		}
 	}
 
-	return protocol.Broker{ID: -1}, nil
+	return protocol.Broker{ID: -1}, protocol.NewErrNoPartition(topic, partition)
 }
 
 func (r *Request) Split(cluster protocol.Cluster) ([]protocol.Message, protocol.Merger, error) {
